@@ -8,7 +8,7 @@ from props.mcutil import RecordingRandomState, injected_clock
 
 RULE = ("method='montecarlo' under an injected clock (datascope.importance.shapley.time replaced by an object replaying a list of readings) expiring after EVERY "
         "possible iteration including the first, and never; truncation grids: steps 0-3, dyadic tolerances {0, 1/8, 1/4, 1/2, 1}, mean scores and table values "
-        "placed inside, on the edge of and outside the band; recorded permutations; compared with the Lean model Ds.MC.run (keep/step/average) and with an "
+        "placed inside, on the edge of and outside the band, plus size-driven score trajectories whose in-band runs are broken by out-of-band steps; recorded permutations; compared with the Lean model Ds.MC.run (keep/step/average) and with an "
         "independent Python rendering of the property (average over the completed permutations; cut at the first step whose in-band run exceeds the step budget; "
         "zero afterwards; never cut at 0 steps). Non-trivial = timeout actually expires before the last iteration, or at least one permutation is cut; distinct = "
         "distinct (game, settings, clock).")
@@ -50,7 +50,7 @@ def run(ctx):
     I = load_impl(ctx)
     rng = ctx.rng
     q = ctx.tier == "quick"
-    n_cases = 80 if q else 600
+    n_cases = 160 if q else 1000
     for it in range(n_cases):
         n_units = rng.randint(1, 6)
         exprs = [gen.rand_expr_flat(rng, n_units, 2, 2, 2, p_zero=0.15) for _ in range(rng.randint(1, 5))]
@@ -66,6 +66,19 @@ def run(ctx):
             if rows not in table:
                 table[rows] = rng.choice(pool) if rng.random() > 0.1 else rng.choice(["ValueError", "RuntimeWarning", "UserWarning"])
         null = rng.choice(pool)
+        if it % 2 == 1:
+            # trajectory mode: one unit per row and a value that depends only on the number of present rows, so that every permutation walks the
+            # same in-band / out-of-band pattern (runs of in-band steps broken by out-of-band ones: what the consecutive-steps counter is about)
+            n_units = rng.randint(3, 7)
+            exprs = [{"eq": [u, 1]} for u in range(n_units)]
+            inb = [mean, mean + band, mean - band, mean + band / 2]
+            outb = [mean + band + Fraction(1, 8), mean - band - Fraction(1, 4), mean + band + 3]
+            traj = [rng.choice(inb) if rng.random() < 0.6 else rng.choice(outb) for _ in range(n_units + 1)]
+            table = {}
+            for a in spec.assignments(n_units):
+                rows = tables.rows_present(exprs, a)
+                table[rows] = traj[len(rows)]
+            null = traj[0]
         T = rng.choice([0, 1, 1, 2, 3])
         iterations = rng.randint(1, 8)
         timeout = rng.choice([0, 5, 5, 5])
